@@ -4,7 +4,7 @@ import lib, e2, gen_strings, gen_selectors, campaign
 from lib import Check, s_str
 
 PID = 'C20'
-CONE = ['Regex.v', 'RegexFacts.v', 'Diag.v', 'DiagFacts.v', 'LineFacts.v', 'Parser.v', 'gen/RegexGen.v']
+CONE = ['Regex.v', 'RegexFacts.v', 'RegexCost.v', 'RunFacts.v', 'DetCost.v', 'Diag.v', 'DiagFacts.v', 'LineFacts.v', 'PrettyFacts.v', 'Parser.v', 'gen/RegexGen.v']
 
 
 def spec_line_col(s, i):
